@@ -323,6 +323,7 @@ class QueryScheduler:
         '_query_heap',
         '_next_run',
         '_clock_resolution_millis',
+        '_min_next_run_millis',
         '_question_type',
     )
 
@@ -350,6 +351,8 @@ class QueryScheduler:
         self._query_heap: list[_ScheduledPTRQuery] = []
         self._next_run: Optional[asyncio.TimerHandle] = None
         self._clock_resolution_millis = time.get_clock_info('monotonic').resolution * 1000
+        # Earliest time the next refresh pass may run (rate limit); 0 while the startup queries are being sent
+        self._min_next_run_millis: float = 0
         self._question_type = question_type
 
     def start(self, loop: asyncio.AbstractEventLoop) -> None:
@@ -388,6 +391,20 @@ class QueryScheduler:
         """Schedule a query for a pointer."""
         self._next_scheduled_for_alias[scheduled_query.alias] = scheduled_query
         heappush(self._query_heap, scheduled_query)
+        self._rearm_if_due_earlier(scheduled_query.when_millis)
+
+    def _rearm_if_due_earlier(self, when_millis: float_) -> None:
+        """Wake up earlier if a query is now due before the armed wake-up time.
+
+        Never earlier than the minimum time between queries allows. While a pass is
+        running the armed time is in the past, so the pass re-arms as usual.
+        """
+        if not self._min_next_run_millis or self._next_run is None or self._loop is None:
+            return
+        when = millis_to_seconds(max(when_millis, self._min_next_run_millis))
+        if when < self._next_run.when():
+            self._next_run.cancel()
+            self._next_run = self._loop.call_at(when, self._process_ready_types)
 
     def cancel_ptr_refresh(self, pointer: DNSPointer) -> None:
         """Cancel a query for a pointer."""
@@ -448,8 +465,9 @@ class QueryScheduler:
         # switch to a strategy of sending queries only when we
         # need to refresh records that are about to expire
         if self._startup_queries_sent >= STARTUP_QUERIES:
+            self._min_next_run_millis = now_millis + self._min_time_between_queries_millis
             self._next_run = self._loop.call_at(
-                millis_to_seconds(now_millis + self._min_time_between_queries_millis),
+                millis_to_seconds(self._min_next_run_millis),
                 self._process_ready_types,
             )
             return
@@ -506,6 +524,7 @@ class QueryScheduler:
             self.async_send_ready_queries(False, now_millis, ready_types)
 
         next_time_millis = now_millis + self._min_time_between_queries_millis
+        self._min_next_run_millis = next_time_millis
 
         if next_scheduled is not None and next_scheduled.when_millis > next_time_millis:
             next_when_millis = next_scheduled.when_millis
